@@ -29,14 +29,24 @@ fn remote_addrs(scn: &Scenario, node: usize) -> Vec<(Addr, u64, u64)> {
 }
 
 /// The per-address event grammar (a safety property: checked on complete and cut traces).
-fn grammar(res: &ExecResult, node: usize, addr: Addr, out: &mut Vec<Violation>) {
+/// `truncated`: the application only looked at its events at the end of the run, so the oldest
+/// ones may have been discarded by the 100-entry bound and the stream starts in an unknown state.
+fn grammar(res: &ExecResult, node: usize, addr: Addr, truncated: bool, out: &mut Vec<Violation>) {
     #[derive(PartialEq, Debug, Clone, Copy)]
-    enum St { Syncing(u32), Up, Interrupted, Gone }
-    let mut st = St::Syncing(0);
+    enum St { Unknown, Syncing(u32), Up, Interrupted, Gone }
+    let mut st = if truncated { St::Unknown } else { St::Syncing(0) };
     for (r, _, e) in res.nodes[node].events.iter().filter(|e| e.2.addr() == Some(addr)) {
         let next = match (st, e) {
+            (St::Unknown, Ev::Synchronizing { total, count, .. }) if *total == 5 && *count < 5 => Some(St::Syncing(*count)),
+            (St::Unknown, Ev::Synchronized { .. }) => Some(St::Up),
+            (St::Unknown, Ev::Interrupted { .. }) => Some(St::Interrupted),
+            (St::Unknown, Ev::Resumed { .. }) => Some(St::Up),
+            (St::Unknown, Ev::Disconnected { .. }) => Some(St::Gone),
+            (St::Unknown, Ev::Desync { .. }) => Some(St::Unknown),
             (St::Syncing(c), Ev::Synchronizing { total, count, .. }) if *total == 5 && *count == c + 1 && *count < 5 => Some(St::Syncing(c + 1)),
-            (St::Syncing(4), Ev::Synchronized { .. }) => Some(St::Up),
+            // (the handshake events were drained while synchronising; what an undrained
+            // application sees afterwards is the newest part of the stream only)
+            (St::Syncing(4), Ev::Synchronized { .. }) => Some(if truncated { St::Unknown } else { St::Up }),
             (St::Up, Ev::Interrupted { .. }) => Some(St::Interrupted),
             (St::Interrupted, Ev::Resumed { .. }) => Some(St::Up),
             (St::Up | St::Interrupted, Ev::Disconnected { .. }) => Some(St::Gone),
@@ -61,7 +71,8 @@ pub fn judge(scn: &Scenario, res: &ExecResult, _base: Option<&ExecResult>) -> Ve
         }
         let remotes = remote_addrs(scn, ni);
         for &(addr, notify, timeout) in &remotes {
-            grammar(res, ni, addr, &mut out);
+            let drains_events = if ni < scn.peers.len() { scn.peers[ni].drain } else { scn.specs[ni - scn.peers.len()].drain };
+            grammar(res, ni, addr, !drains_events, &mut out);
             if res.cut.is_some() {
                 continue;
             }
